@@ -2,7 +2,7 @@
 C09 -- identifier stropping always yields valid, unreserved, deterministic identifiers.
 
 Observed at : Language.filter_id(instance, id_type) of the c / cpp / py language objects (return value or exception).
-Domain      : * every string of length <= L over SIGMA (16 characters: letters, E, digits, underscore, space, tab,
+Domain      : * every string of length <= L over SIGMA (17 characters: letters, E, digits, underscore, space, tab,
                 punctuation, three non-ASCII code points), enumerated exhaustively in 16 processes;
               * every configured reserved identifier of every language (Python: + keyword.kwlist + dir(builtins)) and an
                 instance of every configured reserved pattern, each with prefix/suffix/case/whitespace variants;
@@ -53,7 +53,7 @@ from .. import core
 
 LANGS = ("c", "cpp", "py")
 ID_TYPES = ("any", "path", "macro", "typedef", "function", "enum")
-SIGMA = ["a", "A", "E", "z", "Z", "_", "0", "9", " ", "\t", "-", ".", "+", "é", "❤", "\U0001F600"]
+SIGMA = ["a", "A", "E", "z", "Z", "_", "0", "9", " ", "\t", "\n", "-", ".", "+", "é", "❤", "\U0001F600"]
 OVERRIDE_KEYS = ("stropping_prefix", "stropping_suffix", "encoding_prefix")
 IDCH = "_aAzZxX09E"  # identifier characters the overrides are drawn from
 DOCUMENTED_EXC = ("RuntimeError", "ValueError")
